@@ -381,3 +381,79 @@ def canon(obj):
 
 def plan_hash(obj):
     return hashlib.sha256(canon(obj).encode()).hexdigest()[:16]
+
+
+# ------------------------------------------------------------------ crash classification
+import re as _re
+
+_FRAME = _re.compile(r"#\d+ 0x[0-9a-f]+ in (.+?) (/\S+?):(\d+)")
+_FRAME_NOFILE = _re.compile(r"#\d+ 0x[0-9a-f]+ in (\S+)")
+
+
+def first_repo_function(text, repo=REPO):
+    """Function name of the innermost stack frame that lies inside /repo."""
+    for m in _FRAME.finditer(text):
+        fn, path = m.group(1), m.group(2)
+        if path.startswith(repo + "/") or path.startswith("/repo/"):
+            fn = _re.sub(r"\(.*$", "", fn).strip()
+            return fn, os.path.relpath(path, repo if path.startswith(repo + "/") else "/repo")
+    return None, None
+
+
+def sanitizer_kind(text):
+    m = _re.search(r"ERROR: AddressSanitizer: ([A-Za-z0-9_-]+)", text)
+    if m:
+        k = m.group(1)
+        if k == "SEGV":
+            return "asan:SEGV"
+        if k == "FPE":
+            return "asan:FPE"
+        if k == "stack-overflow":
+            return "asan:stack-overflow"
+        return "asan:" + k
+    m = _re.search(r"runtime error: (.*)", text)
+    if m:
+        msg = m.group(1)
+        msg = _re.sub(r"0x[0-9a-f]+", "N", msg)
+        msg = _re.sub(r"-?\d+", "N", msg)
+        msg = _re.sub(r"'[^']*'", "T", msg)
+        msg = msg.strip().replace(" ", "-")[:60]
+        return "ubsan:" + msg
+    if "AddressSanitizer" in text:
+        m = _re.search(r"AddressSanitizer: ([^\n]{0,60})", text)
+        return "asan:" + (_re.sub(r"[^A-Za-z-]+", "-", m.group(1))[:40] if m else "other")
+    return None
+
+
+def crash_key(o, tag=""):
+    """None if the simulated process ended normally (by return or exit);
+    otherwise a coarse violation key: kind + innermost /repo function."""
+    kind = o.kind()
+    if kind == "exit":
+        return None
+    if kind == "sanitizer":
+        text = o.stderr.decode("latin-1")
+        sk = sanitizer_kind(text) or "sanitizer:unknown"
+        fn, path = first_repo_function(text)
+        if sk == "asan:stack-overflow":
+            # the frame where the guard page is hit depends on stack depth; key on the
+            # recursion cycle instead: smallest name among /repo functions seen twice
+            seen = {}
+            for m in _FRAME.finditer(text):
+                if m.group(2).startswith(REPO + "/") or m.group(2).startswith("/repo/"):
+                    f = _re.sub(r"\(.*$", "", m.group(1)).strip()
+                    seen[f] = seen.get(f, 0) + 1
+            rec = sorted(f for f, n in seen.items() if n >= 2)
+            fn = rec[0] if rec else (fn or "recursion")
+        return "%s:%s" % (sk, fn or tag or "?")
+    if kind == "signal":
+        return "signal:%d:%s" % (o.wcode, tag)
+    if kind == "timeout":
+        return "hang:%s" % tag
+    if kind == "event-ceiling":
+        return "events:%s" % tag
+    if kind == "quit-ignored":
+        return "quit-ignored:%s" % tag
+    if kind == "sigint-default":
+        return None
+    return "harness:%s" % kind
